@@ -203,6 +203,9 @@ def run(prop, tier="quick", seed=0, replay_path=None):
     except Exception:
         status["errors"].append(traceback.format_exc())
         log(traceback.format_exc())
+    for msg in E.out_of_reach:
+        status["out_of_reach"].append(msg)
+        log("OUT-OF-REACH:", msg)
     obs = E.obligations
     if getattr(mod, "FILTER_BY_PROPERTY", False):
         # shared models emit clauses for several properties; a check keeps the ones routed to it
